@@ -21,6 +21,7 @@ def cases(tier, seed):
     for g in grids:
         for lay in ('v_parallel', 'flux_surface', 'poloidal'):
             out.append({'kind': 'norms', 'grid': list(g), 'layout': lay, 'cost': 10 * g[0] * g[1]})
+        out.append({'kind': 'norms', 'grid': list(g), 'layout': 'poloidal' if g[0] % 2 else 'v_parallel', 'complex': True, 'cost': 10 * g[0] * g[1]})
         out.append({'kind': 'phi', 'grid': list(g), 'cost': 5 * g[0] * g[1]})
     for g in ([(1, 2), (2, 2), (1, 3)] if tier == 'quick' else [(1, 2), (2, 1), (2, 2), (1, 3), (3, 1), (1, 4)]):
         for save in (2, 3):
@@ -60,11 +61,14 @@ def _norms(case, V, st):
     lay = case['layout']
     grid = case['grid']
     size = grid[0] * grid[1]
-    fields = _fields(NPTS)
+    cplx = bool(case.get('complex'))
+    fields = _fields(NPTS, cplx=cplx)
+    if cplx:
+        fields = [(n, F * (1 - 0.75j) if n != 'complex' else F) for n, F in fields]         # every field gets an imaginary part
     mm_cases = [(None, None), (0, 2), (3, 1), (2, 6), ([0, 3], [2, 1]), ([1, 2], [7, 0]), (1, 0)]
 
     def fn(r):
-        g, c, t = setupCylindricalGrid(layout=lay, npts=list(NPTS), comm=MPI.COMM_WORLD, zMin=7.0, vMin=-6.1, rMin=0.3)
+        g, c, t = setupCylindricalGrid(layout=lay, npts=list(NPTS), comm=MPI.COMM_WORLD, zMin=7.0, vMin=-6.1, rMin=0.3, dtype=(np.complex128 if cplx else float))
         l = g.getLayout(lay)
         sl = tuple(slice(int(a), int(b)) for a, b in zip(l.starts, l.ends))
         e = g.eta_grid
@@ -93,7 +97,8 @@ def _norms(case, V, st):
     tag = 'grid %r layout %s' % (grid, lay)
     for k, (name, F) in enumerate(fields):
         tot = np.sum([r[0][k][0] for r in res], axis=0)
-        ref = np.array([(F * F * Wt).sum(), (np.abs(F) * Wt).sum(), (F * Wt).sum(), 0.5 * (F * Wt * e[3][None, None, None, :] ** 2).sum()])
+        Fr = np.real(F)
+        ref = np.array([(np.abs(F) ** 2 * Wt).sum(), (np.abs(Fr) * Wt).sum(), (Fr * Wt).sum(), 0.5 * (Fr * Wt * e[3][None, None, None, :] ** 2).sum()])
         if name == 'one':
             vol = 0.5 * (e[0][-1] ** 2 - e[0][0] ** 2) * 0  # trapezoid of r is exact for linear integrand only on uniform grids; use the discrete reference
         for qi, qn in enumerate(('l2', 'l1', 'nParticles', 'KineticEnergy')):
@@ -102,7 +107,7 @@ def _norms(case, V, st):
                 st['nontrivial'] += 1
             den = max(abs(ref[qi]), 1e-300)
             if not abs(tot[qi] - ref[qi]) <= 1e-12 * max(den, np.abs(F).max() ** 2 * 1e-3):
-                V('sum-differs:%s' % qn, '%s field %s: sum over ranks %.15g vs serial quadrature %.15g (%s)' % (qn, name, tot[qi], ref[qi], tag))
+                V('sum-differs:%s%s' % (qn, ':complex-grid' if cplx else ''), '%s field %s: sum over ranks %.15g vs serial quadrature %.15g (%s)' % (qn, name, tot[qi], ref[qi], tag))
         mm0 = res[0][0][k][1]
         if mm0:
             j = 0
@@ -111,12 +116,12 @@ def _norms(case, V, st):
                     got = res[draw][0][k][1][j]
                     j += 1
                     if ax is None:
-                        sub = F
+                        sub = np.real(F)
                     else:
                         idx = [slice(None)] * 4
                         for a, fx in zip(np.atleast_1d(ax), np.atleast_1d(fix)):
                             idx[a] = fx
-                        sub = F[tuple(idx)]
+                        sub = np.real(F)[tuple(idx)]
                     st['evals'] += 2
                     if size > 1:
                         st['nontrivial'] += 2
